@@ -11,6 +11,17 @@ let path_of_string s =
   | _ -> failwith ("bad path " ^ s)
 let string_of_path p =
   String.concat "|" [string_of_list string_of_frame p.pts; string_of_nat p.maxlen; string_of_z p.torigin]
+(* paths whose limit is a number or N (= None, no limit): model/PathLimM.v *)
+let limit_of_string s = if s = "N" then None else Some (nat_of_string s)
+let string_of_limit = function None -> "N" | Some m -> string_of_nat m
+let lpath_of_string s =
+  match String.split_on_char '|' s with
+  | [fs; ml; t0] -> { lpts = list_of_string frame_of_string fs; llimit = limit_of_string ml; lorigin = z_of_string t0 }
+  | _ -> failwith ("bad path " ^ s)
+let string_of_lpath p =
+  String.concat "|" [string_of_list string_of_frame p.lpts; string_of_limit p.llimit; string_of_z p.lorigin]
+(* the answer of a limit-aware operation: the path, then whether it accepts the probe frame *)
+let with_probe r f = let (_, ok) = lappend r (frame_of_string f) in string_of_lpath r ^ " " ^ string_of_bool_ ok
 let string_of_side = function SL -> "L" | SR -> "R" | SNone -> "?"
 let string_of_ext = function None -> "N" | Some (v, i) -> string_of_z v ^ ":" ^ string_of_nat i
 
@@ -25,6 +36,13 @@ let handle toks =
   | ["append"; p; f] ->
     let (q, ok) = append (path_of_string p) (frame_of_string f) in
     string_of_path q ^ " " ^ string_of_bool_ ok
+  | ["lempty"; ml; t0; f] -> with_probe (lempty_path (limit_of_string ml) (z_of_string t0)) f
+  | ["lreverse"; n; p; rv; f] -> with_probe (lreverse (nat_of_string n) (lpath_of_string p) (bool_of_string_ rv)) f
+  | ["lcopy"; n; p; f] -> with_probe (lcopy (nat_of_string n) (lpath_of_string p)) f
+  | ["lpaste"; b; fw; ov; m; f] ->
+    (match lpaste (lpath_of_string b) (lpath_of_string fw) (bool_of_string_ ov) (limit_of_string m) with
+     | None -> "TYPEERROR"
+     | Some r -> with_probe r f)
   | ["ext"; p] -> let p = path_of_string p in string_of_ext (ordermin p) ^ " " ^ string_of_ext (ordermax p)
   | ["succ"; p; t] -> string_of_option string_of_bool_ (success (path_of_string p) (z_of_string t))
   | ["se"; p; l; r] ->
